@@ -1,5 +1,9 @@
 // usage: <bin> <ID> <quick|thorough> [--replay <file>]   (env VERIF_SEED=<u64>, default 1)
+mod catalogue;
 mod check;
+mod fixture;
+mod routes;
+mod srv;
 use rnv_engine::{Ctx, Tier};
 fn main() {
     let args: Vec<String> = std::env::args().collect();
